@@ -303,6 +303,18 @@ func (m *c17model) apply(set bool, attrs []c17attr) []string {
 	return touched
 }
 
+// clone: the model of a cloned record starts from the model of the original and lives on alone.
+func (m *c17model) clone() *c17model {
+	c := *m
+	c.keys = append([]string{}, m.keys...)
+	c.val = map[string]*c17held{}
+	for k, h := range m.val {
+		hh := *h
+		c.val[k] = &hh
+	}
+	return &c
+}
+
 func (m *c17model) String() string {
 	var b strings.Builder
 	fmt.Fprintf(&b, "off=%d nest=%d slack=%d", m.offered, m.nested, m.slack)
@@ -463,6 +475,10 @@ type c17case struct {
 	rec  *Record   // the record under test once it exists
 	m    *c17model // model in lockstep
 	stop bool      // a structural oracle failed: the state is not expanded
+	// jobs that are not a walk over j.syms (clonepos, longlist): the calls made so far on this record,
+	// and the case description; failures are then replayed by enumeration position
+	ops []*c17op
+	alt func() map[string]any
 }
 
 func (c *c17case) names() []string {
@@ -490,6 +506,10 @@ func (c *c17case) fail(key string, format string, a ...any) {
 		return
 	}
 	c.j.failed[key] = true
+	if c.alt != nil {
+		c.j.r.FailHere(key, c.alt(), format, a...)
+		return
+	}
 	c.j.r.Fail(key, c.desc(), c17replay{c.j.mode, c.j.cl, c.j.ll, c.names()}, format, a...)
 }
 
@@ -853,6 +873,13 @@ func (c *c17case) nestedDupsOffered() bool {
 			}
 		}
 	}
+	for _, op := range c.ops {
+		for _, a := range op.attrs {
+			if has(a.v) {
+				return true
+			}
+		}
+	}
 	return false
 }
 
@@ -968,6 +995,330 @@ func (c *c17case) checkString(path, kind, s, t string) {
 }
 
 // ---------------------------------------------------------------------------
+// job family "clonepos": Clone() after EVERY prefix of an edit sequence, then the rest of the sequence
+// on the original and ANOTHER continuation (its own ops, other values) on the clone, the two sides
+// taking turns. After every call the side that was not edited must be unchanged (deep snapshot), and
+// at the end each side must be what the reference model predicts for its own history (the model of
+// the clone is a copy of the model of the original taken at clone time). Nothing is merged: records
+// of equal content may differ in representation (what sits in the 5 inline slots, spare capacity of
+// the overflow slice), so every (sequence, clone position, clone continuation) is executed.
+
+func c17cloneposOps() []c17op {
+	keep := []string{"Add(a=1)", "Add(b=1,c=1)", "Add(k1..k6)", "Add(k6=9)", "Add(a=slice)", "Add(k6=[L1,{x:L2,x:L3}])", "Set(a=1,b=L1)", "Set(k1=1,"}
+	var out []c17op
+	for _, op := range c17ops() {
+		for _, k := range keep {
+			if op.name == k || (strings.HasSuffix(k, ",") && strings.HasPrefix(op.name, k)) {
+				out = append(out, op)
+			}
+		}
+	}
+	return out
+}
+
+var c17cloneposLimits = [][2]int{{-1, -1}, {5, 3}, {6, 3}, {7, 1}, {4, -1}}
+
+// c17words calls f with every word of exactly n letters over 0..k-1, in lexicographic order.
+func c17words(n, k int, f func([]int)) {
+	w := make([]int, n)
+	var rec func(i int)
+	rec = func(i int) {
+		if i == n {
+			f(w)
+			return
+		}
+		for x := 0; x < k; x++ {
+			w[i] = x
+			rec(i + 1)
+		}
+	}
+	rec(0)
+}
+
+func (j *c17job) fork(ops []c17op, vops []*c17op, seq []int, p int, contC []int, cloneFirst bool) {
+	r := j.r
+	rec := &Record{attributeCountLimit: j.cl, attributeValueLengthLimit: j.ll}
+	var cl Record
+	co := &c17case{j: j, rec: rec, m: c17newModel(j.cl, j.ll)}
+	cc := &c17case{j: j}
+	desc := func(side string) func() map[string]any {
+		return func() map[string]any {
+			first := "original"
+			if cloneFirst {
+				first = "clone"
+			}
+			d := map[string]any{"count_limit": j.cl, "length_limit": j.ll, "first_call_after_clone_on": first, "judged": side,
+				"original": c17snapshot(rec), "model_of_original": co.m.String()}
+			var a, b, c []string
+			for _, i := range seq[:p] {
+				a = append(a, ops[i].name)
+			}
+			for _, i := range seq[p:] {
+				b = append(b, ops[i].name)
+			}
+			for _, i := range contC {
+				c = append(c, vops[i].name)
+			}
+			d["calls_before_clone"], d["calls_on_original_after_clone"], d["calls_on_clone"] = a, b, c
+			if cc.rec != nil {
+				d["clone"], d["model_of_clone"] = c17snapshot(&cl), cc.m.String()
+			}
+			return d
+		}
+	}
+	co.alt, cc.alt = desc("original"), desc("clone")
+	defer r.Sample(func() any { return co.alt() })
+	for _, i := range seq[:p] {
+		op := &ops[i]
+		co.ops = append(co.ops, op)
+		if !co.step(rec, op.set, op.attrs, op) {
+			return
+		}
+	}
+	r.Eval()
+	if !co.protect("Clone", func() { cl = rec.Clone() }) {
+		return
+	}
+	cc.rec, cc.m, cc.ops = &cl, co.m.clone(), append([]*c17op{}, co.ops...)
+	so, sc := c17snapshot(rec), c17snapshot(&cl)
+	if so != sc {
+		co.fail("clone-differs|content at clone time", "Clone() of\n  %s\nholds\n  %s", so, sc)
+		return
+	}
+	restO, restC := seq[p:], contC
+	onClone := cloneFirst
+	for len(restO) > 0 || len(restC) > 0 {
+		if onClone && len(restC) == 0 {
+			onClone = false
+		} else if !onClone && len(restO) == 0 {
+			onClone = true
+		}
+		if onClone {
+			op := vops[restC[0]]
+			restC = restC[1:]
+			cc.ops = append(cc.ops, op)
+			if !cc.step(&cl, op.set, op.attrs, op) {
+				return
+			}
+			if now := c17snapshot(rec); now != so {
+				cc.fail("clone-shares-state|edit of the clone visible in the original", "%s on the clone changed the original:\n  was %s\n  now %s", op.name, so, now)
+				return
+			}
+			sc = c17snapshot(&cl)
+		} else {
+			op := &ops[restO[0]]
+			restO = restO[1:]
+			co.ops = append(co.ops, op)
+			if !co.step(rec, op.set, op.attrs, op) {
+				return
+			}
+			if now := c17snapshot(&cl); now != sc {
+				co.fail("clone-shares-state|edit of the original visible in the clone", "%s on the original changed the clone:\n  was %s\n  now %s", op.name, sc, now)
+				return
+			}
+			so = c17snapshot(rec)
+		}
+		r.Transition()
+		onClone = !onClone
+	}
+	// each side against the model of its own history
+	co.oracles(false)
+	cc.oracles(false)
+	r.Outcome(so + " || " + sc)
+}
+
+func c17clonepos(r *enum.R, j *c17job) {
+	ops := c17cloneposOps()
+	var vops []*c17op
+	for i := range ops {
+		vops = append(vops, c17variantOp(&ops[i]))
+	}
+	maxSeq := enum.Pick(r, 3, 4)  // calls on the original, the clone taken after 0..len of them
+	maxCont := enum.Pick(r, 2, 2) // calls on the clone
+	orders := enum.Pick(r, 1, 2)  // who is edited first after the clone: the original | either
+	r.Bound("clonepos_limit_pairs", c17cloneposLimits)
+	r.Bound("clonepos_ops", len(ops))
+	r.Bound("clonepos_max_calls_on_original", maxSeq)
+	r.Bound("clonepos_clone_positions", "every prefix, 0..len")
+	r.Bound("clonepos_max_calls_on_clone", maxCont)
+	r.Bound("clonepos_turn_orders", orders)
+	for l := 0; l <= maxSeq; l++ {
+		c17words(l, len(ops), func(seq []int) {
+			for p := 0; p <= l; p++ {
+				for m := 0; m <= maxCont; m++ {
+					c17words(m, len(ops), func(cont []int) {
+						for o := 0; o < orders; o++ {
+							if r.Expired() || !r.Want() {
+								continue
+							}
+							j.fork(ops, vops, seq, p, cont, o == 1)
+						}
+					})
+				}
+			}
+		})
+	}
+}
+
+// ---------------------------------------------------------------------------
+// job family "longlist": ONE AddAttributes / SetAttributes call with more attributes than the 5
+// inline slots. A list is a word of n key occurrences in which up to D positions repeat an earlier
+// key of the list (every choice of the repeating positions and of the key each repeats: the repeats
+// fall before, on and behind the inline/overflow boundary, which the record's prior content moves);
+// values differ per position (integers, long strings, maps with duplicate keys) so that "last value
+// wins" and the per-value limits are told apart position by position. The call is made on a fresh
+// record and on records that already hold 1, 4, 5, 6 or 8 attributes, some under keys of the list
+// (in the inline array, in its last slot, in the overflow slice); a second long call then overwrites
+// every key of the list in reverse order and adds one more. Both states are judged by the model.
+
+var c17longlistCounts = []int{4, 5, 6, 7, -1}
+
+func c17longValue(p int) c17vd {
+	switch p % 3 {
+	case 1:
+		return c17Str(string(rune('A'+p)) + c17L1)
+	case 2:
+		return c17Map(c17kv("x", c17Int(int64(p))), c17kv("x", c17Str(c17L2)), c17kv("y", c17Int(int64(p))))
+	}
+	return c17Int(int64(100 + p))
+}
+
+func c17opName(set bool, attrs []c17attr) string {
+	var b strings.Builder
+	b.WriteString(map[bool]string{false: "Add(", true: "Set("}[set])
+	for i, a := range attrs {
+		if i > 0 {
+			b.WriteString(",")
+		}
+		b.WriteString(a.key + "=" + a.v.String())
+	}
+	b.WriteString(")")
+	return b.String()
+}
+
+// c17lists calls f with every list of n key indices that has exactly d repeating positions.
+func c17lists(n, d int, f func([]int)) {
+	w := make([]int, n)
+	var rec func(pos, fresh, used int)
+	rec = func(pos, fresh, used int) {
+		if pos == n {
+			if used == d {
+				f(w)
+			}
+			return
+		}
+		if n-pos-1 >= d-used {
+			w[pos] = fresh
+			rec(pos+1, fresh+1, used)
+		}
+		if used < d {
+			for k := 0; k < fresh; k++ {
+				w[pos] = k
+				rec(pos+1, fresh, used+1)
+			}
+		}
+	}
+	rec(0, 0, 0)
+}
+
+func c17longlistPre() []*c17op {
+	mk := func(keys ...string) *c17op {
+		op := &c17op{}
+		for i, k := range keys {
+			v := c17Int(int64(900 + i))
+			if i == 1 {
+				v = c17Str("pre" + c17L1)
+			}
+			op.attrs = append(op.attrs, c17kv(k, v))
+		}
+		op.name = c17opName(false, op.attrs)
+		return op
+	}
+	return []*c17op{
+		nil, // fresh record
+		mk("k3"),
+		mk("p1", "k2", "p3", "k6"),
+		mk("p1", "k6", "p3", "k1", "k5"),       // inline array full, k5 in its last slot
+		mk("p1", "p2", "k7", "p4", "k5", "k6"), // k5 in the last inline slot, k6 first in the overflow slice
+		mk("k8", "p2", "p3", "p4", "p5", "k1", "p7", "k6"), // three in the overflow slice
+	}
+}
+
+func (j *c17job) longCase(pre *c17op, set bool, list []int) {
+	r := j.r
+	rec := &Record{attributeCountLimit: j.cl, attributeValueLengthLimit: j.ll}
+	c := &c17case{j: j, rec: rec, m: c17newModel(j.cl, j.ll)}
+	c.alt = func() map[string]any {
+		var calls []string
+		for _, op := range c.ops {
+			calls = append(calls, op.name)
+		}
+		return map[string]any{"count_limit": j.cl, "length_limit": j.ll, "calls": calls, "record": c17snapshot(rec), "model": c.m.String()}
+	}
+	defer r.Sample(func() any { return c.alt() })
+	call := func(op *c17op) bool {
+		c.ops = append(c.ops, op)
+		if !c.step(rec, op.set, op.attrs, op) {
+			return false
+		}
+		r.Transition()
+		c.oracles(false)
+		r.Outcome(c17snapshot(rec))
+		return !c.stop
+	}
+	if pre != nil && !call(pre) {
+		return
+	}
+	long := &c17op{set: set}
+	distinct := 0
+	for p, k := range list {
+		long.attrs = append(long.attrs, c17kv(fmt.Sprintf("k%d", k+1), c17longValue(p)))
+		if k >= distinct {
+			distinct = k + 1
+		}
+	}
+	long.name = c17opName(set, long.attrs)
+	if !call(long) {
+		return
+	}
+	probe := &c17op{}
+	for k := distinct - 1; k >= 0; k-- {
+		probe.attrs = append(probe.attrs, c17kv(fmt.Sprintf("k%d", k+1), c17Int(int64(500+k))))
+	}
+	probe.attrs = append(probe.attrs, c17kv("zz", c17Str("z"+c17L1)))
+	probe.name = c17opName(false, probe.attrs)
+	call(probe)
+}
+
+func c17longlist(r *enum.R, j *c17job) {
+	pres := c17longlistPre()
+	// list length -> most repeating positions
+	repeats := map[int]int{6: 3, 7: 3, 8: 2, 9: 2, 10: 2, 11: 2, 12: 2}
+	if r.Thorough() {
+		repeats = map[int]int{6: 4, 7: 4, 8: 4, 9: 3, 10: 3, 11: 3, 12: 3}
+	}
+	r.Bound("longlist_count_limits", c17longlistCounts)
+	r.Bound("longlist_length_limit", j.ll)
+	r.Bound("longlist_attributes_per_call", "6..12")
+	r.Bound("longlist_max_repeating_positions_by_length", repeats)
+	r.Bound("longlist_prior_contents", len(pres))
+	for n := 6; n <= 12; n++ {
+		for d := 0; d <= repeats[n]; d++ {
+			c17lists(n, d, func(list []int) {
+				for _, pre := range pres {
+					for _, set := range []bool{false, true} {
+						if r.Expired() || !r.Want() {
+							continue
+						}
+						j.longCase(pre, set, list)
+					}
+				}
+			})
+		}
+	}
+}
+
+// ---------------------------------------------------------------------------
 
 var (
 	c17countLimits  = []int{-1, -2, 0, 1, 2, 5, 6, 7} // -2: every negative value means unlimited, not only -1
@@ -994,6 +1345,13 @@ func TestVerifC17(t *testing.T) {
 	for _, lim := range [][2]int{{-1, -1}, {3, -1}, {-1, 1}, {6, 3}} {
 		jobs = append(jobs, c17jobName("plain", lim[0], lim[1]))
 	}
+	// clone at every position / long attribute lists (see the two job families above)
+	for _, lim := range c17cloneposLimits {
+		jobs = append(jobs, c17jobName("clonepos", lim[0], lim[1]))
+	}
+	for _, cl := range c17longlistCounts {
+		jobs = append(jobs, c17jobName("longlist", cl, 3))
+	}
 	enum.Jobs(jobs, func(job string) {
 		r := enum.Start("C17", "record")
 		defer r.Finish()
@@ -1007,6 +1365,18 @@ func TestVerifC17(t *testing.T) {
 		}
 		fmt.Sscanf(parts[1], "count=%d", &cl)
 		fmt.Sscanf(parts[2], "len=%d", &ll)
+
+		if mode == "clonepos" || mode == "longlist" {
+			// replayed by enumeration position (r.Want)
+			j := &c17job{r: r, mode: mode, cl: cl, ll: ll, failed: map[string]bool{}}
+			r.Section(job)
+			if mode == "clonepos" {
+				c17clonepos(r, j)
+			} else {
+				c17longlist(r, j)
+			}
+			return
+		}
 
 		ops := c17ops()
 		j := &c17job{r: r, mode: mode, cl: cl, ll: ll, failed: map[string]bool{}}
